@@ -1,5 +1,6 @@
 """C06 - any revoked commitment the counterparty confirms is fully punished (structural part)."""
 from engine import *
+import linforms
 import obligations
 import provenance
 import guards
@@ -423,3 +424,4 @@ def r06H(F):
 	return C11.r11H(F, '06.H')
 RULES.append(('06.H', 'claims and contentious outpoints of a revoked commitment are stamped with the confirming block, not the tip (11.H under C06)', r06H))
 RULES.append(('06.N', 'arithmetic census: per reviewed function the set of operation kinds (group: add/sub, mul, div, rem, shift, bit, min, max, div_ceil ...; flavour: plain / checked / saturating / wrapping) keeps its kinds: no reviewed function lost or gained a kind of arithmetic altogether - a rounding direction (`/` for div_ceil), saturating for checked, min for max (rules/arith.py; counts and value arithmetic itself are not judged)', lambda F: arith.for_property(F, 'C06', '06.N')))
+RULES.append(('06.K', 'constant census of linear forms: every comparison (normalised to sum >= K over name-free atoms, a comparison and its negation being one form) and every maximal arithmetic expression of a reviewed function keeps its coefficients and its constant - a dropped or added `+ 1` / `- 1`, `<` for `<=` inside a computed bound, a scale factor applied twice or not at all, swapped operands of a comparison (rules/linforms.py; shapes that appear or disappear are not judged, the guard / arithmetic censuses judge those)', lambda F: linforms.for_property(F, 'C06', '06.K')))
